@@ -90,3 +90,9 @@ Print Assumptions cleanpath_length.
 
 Example clean_spec_length_tight : List.length (clean_spec (S2B "a")) = S (List.length (S2B "a")).
 Proof. exact ProofsLen.clean_spec_length_tight. Qed.
+
+(* an absolute path never grows: only a relative path receives the extra byte *)
+Theorem clean_spec_length_abs : forall t,
+  List.length (clean_spec ("/" :: t)) <= List.length ("/" :: t).
+Proof. exact ProofsLen.clean_spec_length_abs. Qed.
+Print Assumptions clean_spec_length_abs.
